@@ -496,6 +496,12 @@ def rules_new_clear(prog, res):
             okr = is_const(run0) and const_val(run0) == 0
             oku = len(ups) == 1 and ups[0][0] == (("f", fields.index("data")), ("i", mk("const", "usize", 0))) and is_const(ups[0][1]) and const_val(ups[0][1]) == 0xD3
             ok = okd and okr and oku
+            if not ok and not ups and okr and data0.op == "upd":
+                # the array is finished first and then moved into the struct:  upd(repeat(0, 1029), [i 0], 0xD3)
+                inner = data0.args[0]
+                okd2 = inner.op == "repeat" and is_const(inner.args[0]) and const_val(inner.args[0]) == 0 and inner.args[1] == 1029
+                oku2 = data0.args[1] == (("i", mk("const", "usize", 0)),) and is_const(data0.args[2]) and const_val(data0.args[2]) == 0xD3
+                ok = okd2 and oku2
         res.ob("T-new", "new | data = [0; 1029] with data[0] = 0xD3, has_run = false", ok, d, f.loc, sample=d)
     # only `new` builds a MessageBuilder / stores has_run=false
     builders = set()
